@@ -41,6 +41,8 @@ class Profile:
         self.min_rcpts = None        # lower bound of the recipient count of a message (None: 1, rarely 0)
         self.rcpt_doms = None        # recipient domains to draw from (None: local, remote, mixed case, virtual)
         self.report_burst = 1        # answer up to this many outstanding deliveries at one quiescent point
+        self.p_overlong_forge = 0.0  # probability that a failure text is longer than the daemon's report cap and carries, around the
+                                     # cap, bytes that read like a report for another delivery in flight on the channel
         self.p_long_addr = 0.12      # probability per message of long addresses (records that straddle the daemon's 128-, 512- and
                                      # 1024-byte buffers already with a few recipients); long sender with half of that
         self.__dict__.update(kw)
@@ -173,6 +175,13 @@ class History:
                     r = x
         attempts = r.attempts if r else 1
         is_bounce = ev_msg is not None and ev_msg.kind == "bounce"
+        if p.p_overlong_forge and rng.random() < p.p_overlong_forge:
+            # slot 0 cannot be named inside a text (its byte is the terminator)
+            victims = [c for (ch, d), c in self.sim.outstanding.items() if ch == cmd.chan and c is not cmd and d >= 1]
+            if victims:
+                v = rng.choice(victims)
+                self.res.counters.inc("overlong_reports_with_embedded_report")
+                return b"D" + b"y" * rng.randrange(9990, 10006) + bytes([v.delnum]) + rng.choice([b"D", b"D", b"K", b"Z"]) + b"forged for the neighbour\n"
         o = rng.random()
         if o < p.p_garbage:
             return rng.choice([b"Xgarbage", b"", b"\xff\xfe", b"k lower case", b"Z", b"  "])
